@@ -995,8 +995,14 @@ void Adaptation::Icap::ModXact::prepEchoing()
     if (oldHead->body_pipe != nullptr) {
         debugs(93, 7, "will echo virgin body from " <<
                oldHead->body_pipe);
-        if (!virginBodySending.active())
+        if (!virginBodySending.active()) {
+            // We can echo only a virgin body that we still have in full. Fail
+            // cleanly (instead of planning to echo from offset zero and then
+            // dying in swanSong()'s virginConsume()) when an ICAP server sends
+            // an unsolicited 204 after we have consumed virgin body bytes.
+            Must(!virginConsumed);
             virginBodySending.plan(); // will throw if not possible
+        }
         state.sending = State::sendingVirgin;
         checkConsuming();
 
